@@ -258,6 +258,9 @@ def work(task):
     elif kind == 'sequence':
         for item in items:
             sequence_case(item, acc)
+    elif kind == 'grid':
+        for item in items:
+            grid_case(item, acc)
     else:
         for item in items:
             system_case(item, acc)
@@ -331,6 +334,36 @@ LAYOUTS = [
 ]
 
 
+def grid_case(item, acc):
+    """Four atoms on the corners of a rectangle (two residues, or two input molecules): sides and diagonals fall on
+    either side of the criterion independently of each other."""
+    elements, side_a, side_b, mode, fudge, split = item
+    thr = threshold('C', 'C', fudge)
+    xa, yb = thr * side_a, thr * side_b
+    corners = [(0.0, 0.0), (xa, 0.0), (xa, yb), (0.0, yb)]
+    names = [('A1', 'RB'), ('A2', 'RB'), ('A1', 'S1'), ('A4', 'S1')]
+    atoms = []
+    for idx, ((x, y), element, (atomname, resname)) in enumerate(zip(corners, elements, names)):
+        atoms.append({'tag': 'g%d' % idx, 'element': element, 'position': (x, y, 0.0), 'chain': 'A',
+                      'resname': resname, 'resid': 1 if (split == 'same-ids' or idx < 2) else 2, 'atomname': atomname})
+    mols = [atoms[:2], atoms[2:]] if split != 'one' else [atoms]
+    case = {'layer': 'grid', 'elements': list(elements), 'sides': [side_a, side_b], 'mode': mode, 'fudge': fudge, 'split': split}
+    evaluate(mols, fudge, mode, [], case, acc, nontrivial=True, sample=(acc.states % 2003 == 0))
+
+
+def grid_items(tier):
+    sides = (0.6, 0.95, 1.05, 1.6)
+    element_sets = [('C', 'C', 'C', 'C'), ('C', 'H', 'H', 'O'), ('N', 'O', 'S', 'H'), ('H', 'H', 'C', 'X'), ('S', 'Se', 'C', 'N')]
+    if tier != 'quick':
+        element_sets += [tuple(e) for e in itertools.product(('C', 'H', 'O'), repeat=4)]
+    for elements in element_sets:
+        for side_a, side_b in itertools.product(sides, repeat=2):
+            for mode in ('both', 'distance', 'name'):
+                for fudge in (0.8, 1.2):
+                    for split in ('one', 'two', 'same-ids'):
+                        yield elements, side_a, side_b, mode, fudge, split
+
+
 def system_items():
     for layout in LAYOUTS:
         n = len(layout)
@@ -355,6 +388,11 @@ def run(ctx):
     for part in common.pmap(work, [('systems', chunk) for chunk in common.chunked(items, max(1, len(items) // 64))]):
         acc += part
     ctx.layer('systems', acc)
+    gitems = list(grid_items(ctx.tier))
+    acc = Acc()
+    for part in common.pmap(work, [('grid', chunk) for chunk in common.chunked(gitems, max(1, len(gitems) // 64))]):
+        acc += part
+    ctx.layer('rectangles', acc)
     acc = Acc()
     # every sequence in its own fresh worker process, so that each starts from a clean interpreter state
     for part in common.pmap(work, [('sequence', [item]) for item in sequence_items()], fresh=True):
@@ -365,7 +403,9 @@ def run(ctx):
 def replay(case):
     common.bind_repo()
     acc = Acc()
-    if case['layer'] == 'sequence':
+    if case['layer'] == 'grid':
+        grid_case((tuple(case['elements']), case['sides'][0], case['sides'][1], case['mode'], case['fudge'], case['split']), acc)
+    elif case['layer'] == 'sequence':
         sequence_case((tuple(case['variants']), tuple(case['knowledges']), case['factor']), acc)
     elif case['layer'] == 'pairs':
         specs = pair_specs(case['e1'], case['e2'], case['factor'], case['relation'], case['knowledge'], case['fudge'])
